@@ -673,6 +673,26 @@ func (e *Env) evalCall(n *ast.CallExpr) (Val, bool) {
 				e.err = c.err
 			}
 			return v, ok
+		case "initer":
+			// initer(e): e with only the events of the current iteration of the innermost enclosing
+			// loop visible (all events when not inside a loop)
+			if len(n.Args) != 1 {
+				return e.fail("initer needs one argument")
+			}
+			c := e.child()
+			if e.frame != nil {
+				li := e.x.loopsOf(e.frame.fn)
+				for head, mark := range e.frame.loopMark {
+					if body := li.body[head]; body != nil && (body[e.frame.block] || head == e.frame.block) && mark > c.eventFloor {
+						c.eventFloor = mark
+					}
+				}
+			}
+			v, ok := c.eval(n.Args[0])
+			if !ok {
+				e.err = c.err
+			}
+			return v, ok
 		case "entry", "athead":
 			// entry(e): the value of e when the loop was entered from outside
 			// athead(e): the value of e at the head of the current iteration
